@@ -98,29 +98,36 @@ class timeouts_at:
         return False
 
 
-def minimize(c, params, schedule):
+def minimize(c, params, schedule, model_seed=None):
+    """model_seed: which of its admissible models the SAT-solver stub returns (random phase under that seed)."""
     from cirbo.minimization import minimize_subcircuits
+    from pysat import solvers as PS
 
-    if schedule is None:
-        return minimize_subcircuits(c, **params)
-    with timeouts_at(schedule) as t:
-        r = minimize_subcircuits(c, **params)
-    minimize.calls = t.count
-    return r
+    saved = PS.MODEL_SEED
+    PS.MODEL_SEED = model_seed
+    try:
+        if schedule is None and model_seed is None:
+            return minimize_subcircuits(c, **params)
+        with timeouts_at(schedule if schedule is not None else set()) as t:  # in-process solver call (the seed must reach it)
+            r = minimize_subcircuits(c, **params)
+        minimize.calls = t.count
+        return r
+    finally:
+        PS.MODEL_SEED = saved
 
 
-def run_case(p, name, c0, params, variant, schedule=None):
+def run_case(p, name, c0, params, variant, schedule=None, model_seed=None):
     import mockturtle_wrapper as mw
     from cirbo.minimization import minimize_subcircuits as _real  # noqa: F401
 
-    minimize_subcircuits = lambda c, **params: minimize(c, params, schedule)  # noqa: E731
+    minimize_subcircuits = lambda c, **params: minimize(c, params, schedule, model_seed)  # noqa: E731
     c = rebuild(c0)
     mw.VARIANT = variant
     src = (REPLAY_PRELUDE + circ.circ_src(c0) + "\nimport itertools\nimport mockturtle_wrapper as mw\nfrom cirbo.minimization import minimize_subcircuits\n"
            "from cirbo.minimization.exception import FailedValidationError, UnsupportedOperationError\n"
            f"mw.VARIANT={variant!r}\nparams={params!r}\n" + circ.circ_src(c0, "o") + "\n"
-           f"from checks import c04\nschedule={None if schedule is None else sorted(schedule)!r}\n_real=minimize_subcircuits\nminimize_subcircuits=lambda c, **params: c04.minimize(c, params, schedule)\n")
-    p.case(("c04", circ.snapshot(c0)[:3], repr(sorted(params.items())), repr(variant), None if schedule is None else tuple(sorted(schedule))),
+           f"from checks import c04\nschedule={None if schedule is None else sorted(schedule)!r}\nmodel_seed={model_seed!r}\n_real=minimize_subcircuits\nminimize_subcircuits=lambda c, **params: c04.minimize(c, params, schedule, model_seed)\n")
+    p.case(("c04", circ.snapshot(c0)[:3], repr(sorted(params.items())), repr(variant), None if schedule is None else tuple(sorted(schedule)), model_seed),
            sample=f"{name}: {circ.describe(c0)} params={params} cuts={variant}" if len(p.samples) < 3 else None)
     try:
         r = minimize_subcircuits(c, **params)
@@ -246,6 +253,12 @@ def special_circuits():
     out.append(("later-cone-holds-a-vanished-gate", circgen.build(
         ["a", "b", "c", "d"], [("g1", G.AND, ("a", "b")), ("g3", G.AND, ("b", "c")), ("g4", G.AND, ("g1", "g3")), ("k", G.AND, ("c", "d")), ("m", G.LT, ("b", "d")),
                                ("n", G.OR, ("k", "m"))], ["g4", "n"])))
+    # a cone exporting a function and its complement (the search has slack: spare gates are filled arbitrarily by the model)
+    out.append(("complementary-outputs-xor", circgen.build(
+        ["a", "b"], [("t", G.AND, ("a", "b")), ("u", G.NOR, ("a", "b")), ("o1", G.NOR, ("t", "u")), ("o2", G.OR, ("t", "u"))], ["o1", "o2"])))
+    out.append(("complementary-outputs-mux", circgen.build(
+        ["s", "a", "b"], [("ns", G.NOT, ("s",)), ("t1", G.AND, ("s", "a")), ("t2", G.AND, ("ns", "b")), ("m", G.OR, ("t1", "t2")), ("nm", G.NOR, ("t1", "t2")),
+                          ("x", G.AND, ("m", "a")), ("y", G.OR, ("nm", "b"))], ["x", "y", "m", "nm"])))
     out.append(("xor-from-and-or", circgen.build(
         ["a", "b"], [("o", G.OR, ("a", "b")), ("n", G.NAND, ("a", "b")), ("x", G.AND, ("o", "n"))], ["x"])))
     out.append(("output-is-cone-member", circgen.build(
@@ -288,7 +301,17 @@ def correlated_leaves(rnd):
     return circgen.build(xs, gates, [g[4]])
 
 
+MODEL_SWEEP = ("complementary-outputs-xor", "complementary-outputs-mux", "output-is-cone-member", "negated-leaf-exported")
+
+
 def unit(p, item, tier, seed):
+    if isinstance(item, tuple):
+        # whichever admissible model the solver returns: random-phase models under a range of seeds
+        _, name, basis, lo, hi = item
+        c0 = dict(special_circuits())[name]
+        for ms in range(lo, hi):
+            run_case(p, name, c0, dict(basis=basis, enable_validation=bool(ms % 2)), "canonical", model_seed=ms)
+        return
     s = item
     rnd = random.Random(s)
     thorough = tier == "thorough"
@@ -306,6 +329,7 @@ def unit(p, item, tier, seed):
             for basis in ("AIG", "XAIG", "FULL"):
                 run_case(p, name, c0, dict(basis=basis, enable_validation=True, max_subcircuit_size=9, solver_time_limit_sec=15, cut_size=5, cut_limit=25), "canonical")
                 run_case(p, name, c0, dict(basis=basis, enable_validation=False, solver_time_limit_sec=0), "canonical")
+
         for k in range(2 if not thorough else 4):
             params = dict(
                 basis=rnd.choice(["AIG", "XAIG", "FULL", "xaig"]) if k else rnd.choice(["XAIG", "AIG"]),
@@ -319,7 +343,7 @@ def unit(p, item, tier, seed):
                 from cirbo.synthesis.circuit_search import Basis
 
                 params["basis"] = params["basis"].upper()
-            run_case(p, name, c0, params, variants[(k + s) % len(variants)])
+            run_case(p, name, c0, params, variants[(k + s) % len(variants)], model_seed=(None if k == 0 else rnd.randint(1, 10 ** 6)))
         # time-limit schedules: the k-th solver call (and only it / it and all later ones) runs out of time
         params = dict(basis=rnd.choice(["XAIG", "AIG", "FULL"]), enable_validation=True, solver_time_limit_sec=rnd.choice([1, 7]))
         run_case(p, name, c0, params, "canonical", schedule=set())
@@ -338,7 +362,7 @@ def run(rep, tier, seed, only=None):
                      "Circuit.replace_subcircuit", "CircuitFinderSat (time-limited path)", "build_miter + is_circuit_satisfiable (validation)"]
     rep.bounds = {"circuits": "special redundant circuits + seeded binary circuits over the 11 supported types, <=4 inputs, <=7 (quick) / <=9 (thorough) base gates plus redundancy",
                   "parameters": "basis AIG/XAIG/FULL (str), max_subcircuit_size {2,4,9}, cut_size {2,3,5}, cut_limit {2,25}, time limit {15} quick / {1,15} thorough",
-                  "cut families": "canonical, reversed, shuffled(seed), truncated(2)", "time-limit schedules": "no call, exactly the k-th call (k<4 quick / <6 thorough), every call from the k-th on times out (environment stub of pebble's time-limited future)", "hash seeds": "the runner's own PYTHONHASHSEED (quick); subprocess per seed 0..3 (thorough)"}
+                  "cut families": "canonical, reversed, shuffled(seed), truncated(2)", "solver models": "z3's own model + random-phase models under 40 (quick) / 200 (thorough) seeds on cones with complementary outputs, one random seed per seeded case", "time-limit schedules": "no call, exactly the k-th call (k<4 quick / <6 thorough), every call from the k-th on times out (environment stub of pebble's time-limited future)", "hash seeds": "the runner's own PYTHONHASHSEED (quick); subprocess per seed 0..3 (thorough)"}
     rep.outside = ["n-ary gates (pattern simulation reads two operands)", "hash seeds other than those run", "circuits with functionally equivalent gates: internal errors there are counted, not alarmed (the property excludes them)"]
     rep.rule = "program = (circuit, parameter setting, cut family); equivalence decided by z3 over all inputs"
     rep.explanation = "translation validation of each minimize_subcircuits call"
@@ -356,4 +380,5 @@ def run(rep, tier, seed, only=None):
                 rep.count(f"hash_seed_{hs}_cases", part.cases)
             except Exception as e:  # noqa: BLE001
                 rep.error(f"hash-seed child {hs} failed: {e}: {r.stderr[-500:]}")
-    rep.pmap(unit, [seed * 61 + s for s in range(32 if thorough else 16)], may_fork=True)
+    sweep = [("models", name, basis, lo, lo + 10) for name in MODEL_SWEEP for basis in ("AIG", "XAIG", "FULL") for lo in range(1, 201 if thorough else 41, 10)]
+    rep.pmap(unit, sweep + [seed * 61 + s for s in range(32 if thorough else 16)], may_fork=True)
